@@ -22,7 +22,7 @@ RULE = ('Cases = generated scene (layered, split_candidate with >= 30 hits per g
 ASSUMPTIONS = ['crashes of run() are left to C08 (counted under skipped_precondition)']
 BUDGET = {'quick': 1100, 'thorough': 25000}
 CORPUS = 'pipeline'
-MANY = {'quick': 4, 'thorough': 48}
+MANY = {'quick': 6, 'thorough': 48}
 WEIGHTS = {'layered': 6, 'split_candidate': 5, 'double_split': 4, 'merge_chain': 3, 'bundle_stress': 2, 'degenerate': 3,
            'exact_counts': 1, 'ref_window': 2}
 
